@@ -1,2 +1,6 @@
 #!/bin/sh
-exit 0
+# Builds the simulator from files on disk only (offline).
+cd "$(dirname "$0")/sim" || exit 2
+export CARGO_NET_OFFLINE=true
+mkdir -p target
+cargo build --release --offline 2>&1 | tail -3
